@@ -212,4 +212,23 @@ theorem slot_with_false_condition_renders_nothing (W : World) (f : Nat) (ctx : C
   have hne2 : (c == []) = false := by simpa using hne
   simp [evalList, honce, hpre, hfor, hif, hc, chainSelect, hne2, hfalse, chainScan, bindE]
 
+/-- every bound attribute of a `<slot>` is a PROP of that use, whatever it is called: `:name="e"` is the prop `name` - it neither names the
+    slot (the static `name` attribute does, `default` without one) … -/
+theorem bound_name_does_not_name_the_slot (e : Str) (rest : List Attr) :
+    getAttr ((S ":name", e) :: rest) (S "name") = getAttr rest (S "name") := by
+  simp [getAttr, List.lookup, S]
+
+/-- … nor is it left out of the props: the content receives it under the name `name` -/
+theorem bound_name_is_a_prop (P : Params) (env : Scope) (e : Str) (v : Val) (hv : P.exprEval e env = .ok v) (hn : v ≠ .nil) :
+    Scope.get (slotProps P env [(S ":name", e)]) (S "name") = some v := by
+  have : slotProps P env [(S ":name", e)] = [(S "name", v)] := by
+    simp only [slotProps, List.foldl, S]
+    cases v <;> simp_all [Scope.set]
+  rw [this]; simp [Scope.get, List.lookup]
+
+/-- … so the unnamed slot with a `name` prop looks its content up under `default`, with the props bound (a use of `evalSlot`) -/
+example (e : Str) :
+    (if getAttr [(S ":name", e), (S ":email", S "u.e")] (S "name") == [] then S "default" else getAttr [(S ":name", e), (S ":email", S "u.e")] (S "name")) = S "default" := by
+  simp [getAttr, List.lookup, S]
+
 end Vuego.Props.C06
